@@ -756,7 +756,11 @@ def inv(a):
             out.cells[i][i] = a.cells[i][i].recip()
         return out
     args = tuple(a.flat())
-    return MatVal(a.r, a.c, [[opaque("inv", i, j, a.r, *args) for j in range(a.c)] for i in range(a.r)], a.kind)
+    # a structurally triangular argument gets a structurally triangular inverse (as CasADi's sparsity propagation gives)
+    lower = all(not a.cells[i][j].t for i in range(a.r) for j in range(i + 1, a.c))
+    upper = all(not a.cells[i][j].t for i in range(a.r) for j in range(i))
+    zero = lambda i, j: (lower and j > i) or (upper and j < i)
+    return MatVal(a.r, a.c, [[ZERO if zero(i, j) else opaque("inv", i, j, a.r, *args) for j in range(a.c)] for i in range(a.r)], a.kind)
 
 
 def solve(a, b, *rest):
